@@ -145,6 +145,21 @@ func calleeName(cc *ssa.CallCommon) string {
 			if old, ok := fnAlias[f]; ok && strings.HasSuffix(full, "."+f.Name()) {
 				full = full[:len(full)-len(f.Name())] + old
 			}
+			if oldFull, ok := fnFullAlias[f]; ok {
+				// a function that moved to another receiver: its old display name, in the long form used here
+				// ("(*workflow.loopState).m" -> "(*go.flow.arcalot.io/engine/workflow.loopState).m")
+				pre, rest := "", oldFull
+				if strings.HasPrefix(rest, "(*") {
+					pre, rest = "(*", rest[2:]
+				} else if strings.HasPrefix(rest, "(") {
+					pre, rest = "(", rest[1:]
+				}
+				if strings.HasPrefix(rest, "engine.") {
+					full = pre + repoModule + rest[len("engine"):]
+				} else {
+					full = pre + repoModule + "/" + rest
+				}
+			}
 			return full
 		}
 		return f.String()
